@@ -15,7 +15,7 @@ pub fn prop() -> Prop {
     Prop {
         id: "C06",
         level: "exploration",
-        rule: "complete cross products: integer boundary lattice (0, ±1, ±2, ±7, ±2^k, ±(2^k±1), k<=60, both range ends, two seed-rotated values) squared x 11 operators x 4 syntactic forms (literal op literal; variable op literal, literal op variable and variable op variable inside a function; the fused opcodes are selected by the middle two); 66 ordinary integers (round decimals, values between 2^31 and 2^32, factors around the square root of the range limit) squared x 11 operators x 4 forms, and against every float in both orders; three-operand chains `x op1 c1 op2 c2` and `c1 op1 x op2 c2` (13 x incl. the range ends, 15 constants squared, 5 x 5 arithmetic operators; x a local and a global); all-literal expressions of two and three range-end constants as the operand of a local; the same chains over 15 x 14² floats and 4 x 4 operators (nothing may be regrouped); 26 float values squared x 11 operators; 110 neighbouring floats (values 0, 1 and 2 units in the last place around 11 magnitudes, both signs) squared x 6 comparisons x 2 forms, and arithmetic results against the literal next to them; all string pairs of length <=2 over {a,b,é,😀} x 6 comparisons; strings of 3..33 characters (around the machine-word sizes) that differ at one position, at two positions in opposite directions (every pair of positions), by a wide character, or by being a prefix, x 6 comparisons x 2 forms; all 7x7 type pairs x 13 operators; !(x op y) for every float pair and every type pair x 6 comparisons; order axioms over all triples of 40-value subsets read through the interpreter. A case is one program; it is non-trivial if it parsed back to the generated tree and the reference model defines its outcome (not Ux); distinct = distinct program texts",
+        rule: "complete cross products: integer boundary lattice (0, ±1, ±2, ±7, ±2^k, ±(2^k±1), k<=60, both range ends, two seed-rotated values) squared x 11 operators x 4 syntactic forms (literal op literal; variable op literal, literal op variable and variable op variable inside a function; the fused opcodes are selected by the middle two); 66 ordinary integers (round decimals, values between 2^31 and 2^32, factors around the square root of the range limit) squared x 11 operators x 4 forms, and against every float in both orders; three-operand chains `x op1 c1 op2 c2` and `c1 op1 x op2 c2` (13 x incl. the range ends, 15 constants squared, 5 x 5 arithmetic operators; x a local and a global); all-literal expressions of two and three range-end constants as the operand of a local; the same chains over 15 x 14² floats and 4 x 4 operators (nothing may be regrouped); 26 float values squared x 11 operators; 110 neighbouring floats (values 0, 1 and 2 units in the last place around 11 magnitudes, both signs) squared x 6 comparisons x 2 forms, and arithmetic results against the literal next to them; all string pairs of length <=2 over {a,b,é,😀} x 6 comparisons; strings of 3..33 characters (around the machine-word sizes) that differ at one position, at two positions in opposite directions (every pair of positions), by a wide character, or by being a prefix, x 6 comparisons x 2 forms; all 7x7 type pairs x 13 operators; what consumes the result (13 consumers: branch and loop conditions, negation, && / ||, element, argument, store, return) of both fused forms for every type and 24 lattice integers x 4 literals x 13 operators; !(x op y) for every float pair and every type pair x 6 comparisons; order axioms over all triples of 40-value subsets read through the interpreter. A case is one program; it is non-trivial if it parsed back to the generated tree and the reference model defines its outcome (not Ux); distinct = distinct program texts",
         assumptions: &[
             "the reference model's operator table (refint::infix: i64 checked arithmetic within the 61-bit range, Rust f64, str ordering) is the specification",
             "operand values outside the enumerated lattices are not covered",
@@ -366,6 +366,41 @@ fn run(sh: &mut Shard) {
                     "cross-type-local",
                     &[es(call(func("", &[], vec![let_("x", a.clone()), es(infix(id("x"), op.clone(), int(lit)))]), vec![]))],
                 );
+            }
+        }
+    }
+    // what CONSUMES the result: the same fused forms (every type and a reduced integer lattice as the variable)
+    // with the comparison / sum used as a condition, negated, combined, stored, returned, passed, as an element
+    {
+        let consumers = |e: Expr| -> Vec<Vec<Stmt>> {
+            vec![
+                vec![es(iff(e.clone(), vec![es(int(1))], Some(vec![es(int(2))])))],
+                vec![es(iff(e.clone(), vec![es(int(1))], None))],
+                vec![es(iff(prefix(Operator::Not, e.clone()), vec![es(int(1))], Some(vec![es(int(2))])))],
+                vec![let_("n", int(0)), es(whil(e.clone(), vec![es(assign(id("n"), infix(id("n"), Operator::Add, int(1)))), es(iff(infix(id("n"), Operator::Gt, int(2)), vec![Stmt::Break], None))])), es(id("n"))],
+                vec![es(iff(boolean(true), vec![es(e.clone())], None))],
+                vec![es(infix(e.clone(), Operator::And, boolean(true)))],
+                vec![es(infix(boolean(false), Operator::Or, e.clone()))],
+                vec![es(iff(infix(e.clone(), Operator::And, boolean(true)), vec![es(int(1))], Some(vec![es(int(2))])))],
+                vec![es(array(vec![e.clone(), int(5)]))],
+                vec![es(calln("type", vec![e.clone()]))],
+                vec![let_("r", e.clone()), es(id("r"))],
+                vec![Stmt::Return(e.clone())],
+                vec![es(iff(e.clone(), vec![Stmt::Return(int(1))], None)), es(int(2))],
+            ]
+        };
+        let lat = lattice(sh.cfg.tier, sh.cfg.seed);
+        let step = (lat.len() / 24).max(1);
+        let xs: Vec<Expr> = tv.iter().map(|(_, a)| a.clone()).chain(lat.iter().step_by(step).map(|v| lit_expr(*v))).collect();
+        for a in &xs {
+            for lit in [0i64, 1, 7, 1 << 40] {
+                for op in &all_ops {
+                    for e in [infix(id("x"), op.clone(), int(lit)), infix(int(lit), op.clone(), id("x"))] {
+                        for body in consumers(e) {
+                            run_case(sh, "consumers", &[es(call(func("", &["x"], body), vec![a.clone()]))]);
+                        }
+                    }
+                }
             }
         }
     }
@@ -720,7 +755,7 @@ fn replay(sh: &mut Shard, case: &Value) {
 }
 
 fn vacuity(m: &Merged) -> Option<String> {
-    for fam in ["int-literal", "int-var-lit", "int-lit-var", "int-var-var", "int-ordinary", "int-float", "int-chain", "int-literal-operand", "float-chain", "float", "string", "string-long", "float-neighbours", "negated-comparison", "cross-type", "bool-table", "axioms"] {
+    for fam in ["int-literal", "int-var-lit", "int-lit-var", "int-var-var", "int-ordinary", "int-float", "int-chain", "int-literal-operand", "float-chain", "float", "string", "string-long", "float-neighbours", "negated-comparison", "cross-type", "consumers", "bool-table", "axioms"] {
         if m.counters.get(&format!("family:{fam}")).copied().unwrap_or(0) == 0 {
             return Some(format!("family {fam} produced no case"));
         }
